@@ -85,12 +85,13 @@ class C12(flow.Spec):
                'NOT proved: the derivation of the Method typing from the earlier passes; fuel is NOT analysed',
                'C12_parse_total_partial_nopanic_deferred_walk: the WHOLE of parseDeferredBlocks - the depth-first walk from any live object (first / '
                'next links, `next` re-read after each child, no descent below a parsed deferred object) that parses every pending deferred object '
-               '(Defer row, handle of the current table) as in the block theorem - never panics and re-establishes R, the invariants and the Method '
-               'typing, provided the pool has room for n blocks (8*len+3 objects each) where the hypothesis dcnt counts the n pending objects the walk '
-               'will meet and demands that none of them has a FieldList argument (pending Buffer / While; a pending BankField, whose parse inserts '
-               'siblings into the list being walked, is EXCLUDED).  Key lemmas: a block changes neither the child list of any object that is not '
-               'itself pending nor any payload field but values; no parser function changes the table handle (partial-correctness judgement hsame, '
-               'ParserTotalDeferH.v).  NOT proved: pending BankFields; dcnt and the Method typing are not derived from the earlier passes; fuel is NOT analysed',
+               '(Defer row, handle of the current table: Buffer, While, BankField) as in the block theorem - never panics and re-establishes R, the '
+               'invariants and the Method typing, provided the pool has room for n blocks (8*len+3 objects each) where the hypothesis dcnt counts the n '
+               'pending objects the walk will meet (a pending BankField must have a parent).  Key lemmas: a block changes no payload field but values; '
+               'the child list of an object that is not itself pending changes only by the NamedFields a pending BankField inserts behind itself into the '
+               'list being walked, and those are new, childless and carry the NamedField row (characterisation threaded from parseFieldElements through '
+               'parseArg / parseArgs / parseObjectArgs), so the walk steps over them; no parser function changes the table handle (partial-correctness '
+               'judgement hsame, ParserTotalDeferH.v).  NOT proved: dcnt and the Method typing are not derived from the earlier passes; fuel is NOT analysed',
                'the unproved parts of C12_full_parse_total (no Panic / OutOfFuel and R for the later passes, outcome class of load) are covered '
                'by the correspondence of the extracted model (explicit Panic / OutOfFuel outcomes, all passes modelled) with the real parser '
                'and by the harness monitors (outcome class, watchdog, independent link checker, PrettyPrint)',
